@@ -70,3 +70,38 @@ def _check(c):
 
 
 mixed_batch = O.make(_gen, _check, 'c20.mixed_batch')
+
+
+# ---- a domain that is derived from the request must be derived from THIS request --------------------------------
+# EPpiston rejects times after the elastic wave has left the requested grid (xmax = max of the points).  A solver object
+# that served a long grid first must still reject, on a short grid with the same number of points, a time that is out of
+# the short grid's domain (seeded C20-10 cached the extent by point count).
+
+def _gen_regrid(rng):
+    return dict(n=rng.choice([11, 51, 101]), long=rng.uniform(1.5, 3.0), short=rng.uniform(0.3, 0.8), f=rng.uniform(1.05, 1.6),
+                model=rng.choice(['hypo', 'hyperIfin', 'hyperFin']))
+
+
+def _check_regrid(c):
+    from exactpack.solvers.ep_piston import EPpiston
+    def mk():
+        return EPpiston(model=c['model'])
+    s0 = mk()
+    t = c['f'] * c['short'] / float(s0.wv_el)            # beyond the short grid's limit, within the long grid's
+    if t >= c['long'] / float(s0.wv_el):
+        return None
+    short = np.linspace(0.0, c['short'], c['n'])
+    fresh, _ = _outcome(lambda: mk()(short, t))
+    used = mk()
+    first, _ = _outcome(lambda: used(np.linspace(0.0, c['long'], c['n']), t))
+    again, sol = _outcome(lambda: used(short, t))
+    if first != 'ok' or fresh == 'ok':
+        return None
+    if again == 'ok':
+        return dict(site='EPpiston:domain-of-an-earlier-request',
+                    detail='t = %r is beyond xmax / wv_el of the grid [0, %r]: a fresh solver raises %s, a solver that served '
+                           '[0, %r] (%d points) first returns finite fields' % (t, c['short'], fresh, c['long'], c['n']))
+    return None
+
+
+eppiston_regrid = O.make(_gen_regrid, _check_regrid, 'c20.eppiston_regrid')
